@@ -555,6 +555,51 @@ def build_component_class(spec, dynamic=False, extra_attrs=None, module="verif_p
     return type("P_" + spec.name, (Component,), attrs)
 
 
+# ---------------------------------------------------------------- unrelated side renders (interference dimension)
+# While the page render is in flight, every component of the program performs - from its on_render_before hook
+# (during its own render) or its on_render_after hook (inside the deferred queue) - an independent Python-API render
+# of an unrelated component and discards the result; the unrelated render succeeds, fails in get_context_data, fails
+# in its on_render_after, or fails in a nested child (the application catches the error).  Nothing observable about
+# the page render may change.
+SIDE_KINDS = ("ok", "fail", "fail_late", "fail_child")
+SIDE_POS = ("before", "after")
+_SIDE = {}
+
+
+def side_classes():
+    from django_components import Component
+    from django_components.component_registry import registry
+
+    def boom(self, *a, **kw):
+        raise ValueError("side render fails")
+
+    if not _SIDE:
+        tpl = "{% provide 'verif_side' v=1 %}<i>s</i>{% component 'verif_sidechild' / %}<i>t</i>{% endprovide %}"
+        _SIDE["child"] = type("VerifSideChild", (Component,), {"template": "<u>child</u>", "__module__": "verif_side"})
+        _SIDE["child_bad"] = type("VerifSideChildBad", (Component,), {"template": "<u>child</u>", "get_context_data": boom, "__module__": "verif_side"})
+        _SIDE["ok"] = type("VerifSideOk", (Component,), {"template": tpl, "__module__": "verif_side"})
+        _SIDE["fail"] = type("VerifSideFail", (Component,), {"template": tpl, "get_context_data": boom, "__module__": "verif_side"})
+        _SIDE["fail_late"] = type("VerifSideFailLate", (Component,), {"template": tpl, "on_render_after": boom, "__module__": "verif_side"})
+        _SIDE["fail_child"] = type("VerifSideFailChild", (Component,), {"template": tpl.replace("verif_sidechild", "verif_sidechild_bad"), "__module__": "verif_side"})
+    for name, key in (("verif_sidechild", "child"), ("verif_sidechild_bad", "child_bad")):
+        if name not in registry.all():
+            registry.register(name, _SIDE[key])
+    return _SIDE
+
+
+def side_attrs(program, pos, kind):
+    """extra_attrs for Harness.install(): every component of the program gets the side render in on_render_<pos>"""
+    cls = side_classes()[kind]
+
+    def side(self, *a, **kw):
+        try:
+            cls.render(render_dependencies=False)
+        except ValueError:
+            pass
+
+    return {name: {"on_render_" + pos: side} for name in program.comps}
+
+
 class Harness:
     """Registers a program's components on the real registry and renders the page."""
 
